@@ -1,26 +1,1112 @@
-//! C23: not implemented yet.
+//! C23: LSP document sync reproduces the client's text.
+//!
+//! Monitor: random edit histories are applied to the real sway-lsp document store through three
+//! drivers, and after every change (batch) the server's copy is compared with a client model:
+//!   direct     `TextDocument::build_from_path` + `TextDocument::apply_change`
+//!   documents  `Documents::handle_open_file` + `Documents::write_changes_to_file`
+//!              (the file on disk is part of the comparison)
+//!   server     `ServerState` + `handle_did_open_text_document` / `handle_did_change_text_document`
+//!              on a real workspace (in-memory copy and the file in the server's workspace clone)
+//! Client model: a `Vec<u16>` editor that applies `TextDocumentContentChangeEvent`s as the LSP
+//! specification defines them: `character` counts UTF-16 code units, lines end at `\n`, `\r\n`
+//! (and a lone `\r`, which is never generated).
+//!
+//! What is generated (and nothing else, so the oracle never demands more than the statement):
+//!   * valid ranges: both positions on existing lines, `character` <= line length, never inside a
+//!     surrogate pair, never between `\r` and `\n`, start <= end;
+//!   * invalid ranges that must be rejected (Err) without altering memory or disk:
+//!     start after end (both positions valid), or an end position on a line >= (number of
+//!     lines + 1) with `character` >= 1;
+//!   * "eof-tolerant" ranges: positions (line >= number of lines, character 0). The protocol does
+//!     not settle them (reference clients clamp to the end of the document); either a rejection
+//!     that leaves the text alone or acceptance as end-of-document is fine.
+//!
+//! Known defect class (DESIGN section 6): `position_to_index` adds the UTF-16 `character` to a byte
+//! offset. A failure is given the class signature `utf16-column-treated-as-byte-offset:*` ONLY when
+//! a second model that deliberately mimics exactly that bug (column counted in bytes, everything
+//! else per the specification) reproduces the server's outcome (same wrong text / same rejection /
+//! panic on a non-boundary) where the correct model differs. Every other mismatch keeps its own
+//! signature and is a violation.
 use crate::common::*;
 use crate::{Plan, Prop};
+use lsp_types::{DidChangeTextDocumentParams, DidOpenTextDocumentParams, Position, Range, TextDocumentContentChangeEvent, TextDocumentItem, Url, VersionedTextDocumentIdentifier};
+use rand::rngs::StdRng;
+use rand::Rng;
+use serde_json::{json, Value};
+use std::panic::AssertUnwindSafe;
+use std::path::{Path, PathBuf};
+use std::time::Duration;
+use sway_lsp::core::document::{Documents, TextDocument};
+use sway_lsp::handlers::notification;
+use sway_lsp::server_state::ServerState;
 
 pub static META: PropertyMeta = PropertyMeta {
     id: "C23",
     level: "exploration",
-    rule: "not implemented",
-    assumptions: &[],
-    floor_evaluations: 1,
-    floor_nontrivial: 2,
-    required_counters: &[],
+    rule: "random histories of 1..30 full / incremental changes (sent one by one or in batches of up to 3) over documents of 0..12 lines mixing ASCII, 2/3-byte and astral characters with LF / CRLF / mixed line endings; positions in UTF-16 code units on valid boundaries, plus invalid ranges (start after end; end line beyond the last line + 1). Non-trivial = the history applied at least 3 incremental changes; distinct = hash of (driver, initial text, changes)",
+    assumptions: &[
+        "positions past the end of a line, inside a surrogate pair or between CR and LF are not generated",
+        "documents never contain a lone CR",
+        "tokio, dashmap and the file system are trusted",
+    ],
+    floor_evaluations: 200,
+    floor_nontrivial: 100,
+    required_counters: &[
+        "changes_applied", "changes_incremental", "changes_full", "invalid_ranges_rejected", "text_comparisons", "disk_comparisons", "histories_ascii_only", "histories_non_ascii", "histories_astral", "histories_crlf", "histories_direct", "histories_documents", "histories_server",
+    ],
 };
 
 pub static PROP: Prop = Prop {
     meta: &META,
-    plan: |_t| Plan { nshards: 1, budget_s: 1.0, mem_gib: 0 },
-    shard: |_ctx| {
-        let mut r = ShardResult::default();
-        r.harness_fault = Some("not implemented".into());
-        r
-    },
-    replay: crate::no_replay,
+    plan: |t| Plan { nshards: t.pick(8, 16), budget_s: t.pick(15.0, 300.0), mem_gib: 6 },
+    shard,
+    replay,
     extra: crate::no_extra,
     subcommand: crate::no_subcommand,
 };
+
+// ------------------------------------------------------------------------------------------
+// Client model (UTF-16)
+
+#[derive(Clone, Debug, PartialEq, Eq)]
+struct Model {
+    u: Vec<u16>,
+}
+
+fn is_high(x: u16) -> bool {
+    (0xD800..0xDC00).contains(&x)
+}
+fn is_low(x: u16) -> bool {
+    (0xDC00..0xE000).contains(&x)
+}
+
+impl Model {
+    fn new(s: &str) -> Model {
+        Model { u: s.encode_utf16().collect() }
+    }
+    fn text(&self) -> String {
+        String::from_utf16(&self.u).expect("model never splits a surrogate pair")
+    }
+    /// (start of line, end of its content excluding the terminator), per the LSP definition of a
+    /// line: terminated by `\n`, `\r\n` or `\r`.
+    fn lines(&self) -> Vec<(usize, usize)> {
+        let u = &self.u;
+        let mut out = vec![];
+        let mut start = 0;
+        let mut i = 0;
+        while i < u.len() {
+            if u[i] == 0x0A {
+                out.push((start, i));
+                i += 1;
+                start = i;
+            } else if u[i] == 0x0D {
+                out.push((start, i));
+                i += if i + 1 < u.len() && u[i + 1] == 0x0A { 2 } else { 1 };
+                start = i;
+            } else {
+                i += 1;
+            }
+        }
+        out.push((start, u.len()));
+        out
+    }
+    /// offsets at which a position may point: not inside a surrogate pair, not between CR and LF
+    fn boundary(&self, off: usize) -> bool {
+        if off > self.u.len() {
+            return false;
+        }
+        if off == 0 || off == self.u.len() {
+            return true;
+        }
+        if is_high(self.u[off - 1]) && is_low(self.u[off]) {
+            return false;
+        }
+        if self.u[off - 1] == 0x0D && self.u[off] == 0x0A {
+            return false;
+        }
+        true
+    }
+    /// strict conversion: the line exists, the column is within the line's content and on a boundary
+    fn offset(&self, lines: &[(usize, usize)], p: Position) -> Option<usize> {
+        let (s, e) = *lines.get(p.line as usize)?;
+        let off = s.checked_add(p.character as usize)?;
+        if off > e || !self.boundary(off) {
+            return None;
+        }
+        Some(off)
+    }
+    fn position(&self, lines: &[(usize, usize)], off: usize) -> Position {
+        // the last line whose start is <= off
+        let mut li = 0;
+        for (i, (s, _)) in lines.iter().enumerate() {
+            if *s <= off {
+                li = i;
+            } else {
+                break;
+            }
+        }
+        Position::new(li as u32, (off - lines[li].0) as u32)
+    }
+    fn splice(&mut self, s: usize, e: usize, text: &str) {
+        self.u.splice(s..e, text.encode_utf16());
+    }
+}
+
+#[derive(Clone, Copy, Debug, PartialEq, Eq)]
+enum Class {
+    Full,
+    Valid(usize, usize),
+    /// must be rejected: start after end
+    InvalidOrder,
+    /// must be rejected: end position on a line beyond the last line + 1 with a non-zero column
+    InvalidLine,
+    /// (line >= number of lines, column 0) positions: reject or treat as end of document
+    EofTolerant(usize, usize),
+    /// outside of what this monitor makes claims about (never generated)
+    Unspecified,
+}
+
+fn classify(m: &Model, ch: &TextDocumentContentChangeEvent) -> Class {
+    let Some(r) = ch.range else { return Class::Full };
+    let lines = m.lines();
+    let nlines = lines.len() as u32;
+    let (s, e) = (m.offset(&lines, r.start), m.offset(&lines, r.end));
+    if let (Some(s), Some(e)) = (s, e) {
+        return if s <= e { Class::Valid(s, e) } else { Class::InvalidOrder };
+    }
+    let lex_le = (r.start.line, r.start.character) <= (r.end.line, r.end.character);
+    let beyond0 = |p: Position| p.line >= nlines && p.character == 0;
+    if r.end.line >= nlines + 1 && r.end.character >= 1 && lex_le && (s.is_some() || r.start.line >= nlines) {
+        return Class::InvalidLine;
+    }
+    let map = |p: Position, strict: Option<usize>| -> Option<usize> {
+        if let Some(o) = strict {
+            Some(o)
+        } else if beyond0(p) {
+            Some(m.u.len())
+        } else {
+            None
+        }
+    };
+    if let (Some(a), Some(b)) = (map(r.start, s), map(r.end, e)) {
+        if a <= b && lex_le {
+            return Class::EofTolerant(a, b);
+        }
+    }
+    Class::Unspecified
+}
+
+// ------------------------------------------------------------------------------------------
+// The model that mimics the known bug: UTF-16 column used as a byte offset
+
+#[derive(Clone, Debug, PartialEq, Eq)]
+enum Outcome {
+    Text(String),
+    /// Err returned; the server's in-memory text at that point
+    Rejected(String),
+    Panic,
+}
+
+fn mimic_apply(t: &str, ch: &TextDocumentContentChangeEvent) -> Outcome {
+    let Some(r) = ch.range else { return Outcome::Text(ch.text.clone()) };
+    let mut offs = vec![0usize];
+    for (i, b) in t.bytes().enumerate() {
+        if b == b'\n' {
+            offs.push(i + 1);
+        }
+    }
+    let idx = |p: Position| offs.get(p.line as usize).copied().unwrap_or(t.len()).saturating_add(p.character as usize);
+    let (s, e) = (idx(r.start), idx(r.end));
+    if s > e || e > t.len() {
+        return Outcome::Rejected(t.to_string());
+    }
+    if !t.is_char_boundary(s) || !t.is_char_boundary(e) {
+        return Outcome::Panic;
+    }
+    let mut out = t.to_string();
+    out.replace_range(s..e, &ch.text);
+    Outcome::Text(out)
+}
+
+fn mimic_batch(t: &str, batch: &[TextDocumentContentChangeEvent]) -> Outcome {
+    let mut cur = t.to_string();
+    for ch in batch {
+        match mimic_apply(&cur, ch) {
+            Outcome::Text(n) => cur = n,
+            Outcome::Rejected(_) => return Outcome::Rejected(cur),
+            Outcome::Panic => return Outcome::Panic,
+        }
+    }
+    Outcome::Text(cur)
+}
+
+// ------------------------------------------------------------------------------------------
+// Generation
+
+#[derive(Clone, Copy, Debug)]
+struct Flavour {
+    multibyte: bool,
+    astral: bool,
+    /// 0 = LF, 1 = CRLF, 2 = mixed
+    eol: u8,
+}
+
+const ASCII_POOL: &[u8] = b"abcdefghijklmnopqrstuvwxyzABCXYZ0123456789 _(){}[];:=+-*/<>.,\"'#\t";
+const BMP_POOL: &[char] = &['é', 'ß', 'ñ', 'Ω', 'ж', '\u{7ff}', '\u{800}', '中', '文', '€', '\u{2028}', '\u{FEFF}', '\u{0301}', '\u{FFFD}', '\u{FFFF}', '\u{E000}', '\u{D7FF}', '\u{A0}', '\u{85}'];
+const ASTRAL_POOL: &[char] = &['😀', '𝔘', '\u{10000}', '\u{10FFFF}', '🦀', '𐍈', '\u{1F1E9}', '\u{E0101}'];
+
+fn gen_char(rng: &mut StdRng, f: Flavour) -> char {
+    let r = rng.gen_range(0..100);
+    if f.astral && r < 15 {
+        ASTRAL_POOL[rng.gen_range(0..ASTRAL_POOL.len())]
+    } else if f.multibyte && r < 40 {
+        BMP_POOL[rng.gen_range(0..BMP_POOL.len())]
+    } else {
+        ASCII_POOL[rng.gen_range(0..ASCII_POOL.len())] as char
+    }
+}
+
+fn gen_eol(rng: &mut StdRng, f: Flavour) -> &'static str {
+    match f.eol {
+        0 => "\n",
+        1 => "\r\n",
+        _ => {
+            if rng.gen_bool(0.5) {
+                "\n"
+            } else {
+                "\r\n"
+            }
+        }
+    }
+}
+
+fn gen_text(rng: &mut StdRng, f: Flavour, max_lines: usize, max_cols: usize) -> String {
+    let mut s = String::new();
+    let nlines = rng.gen_range(0..=max_lines);
+    for i in 0..nlines {
+        let n = if rng.gen_bool(0.15) { 0 } else { rng.gen_range(0..=max_cols) };
+        for _ in 0..n {
+            s.push(gen_char(rng, f));
+        }
+        // the last line may or may not be terminated
+        if i + 1 < nlines || rng.gen_bool(0.5) {
+            s.push_str(gen_eol(rng, f));
+        }
+    }
+    s
+}
+
+fn gen_flavour(rng: &mut StdRng) -> Flavour {
+    let (multibyte, astral) = match rng.gen_range(0..100) {
+        0..=39 => (false, false),
+        40..=59 => (true, false),
+        60..=74 => (false, true),
+        _ => (true, true),
+    };
+    let eol = match rng.gen_range(0..100) {
+        0..=49 => 0,
+        50..=74 => 1,
+        _ => 2,
+    };
+    Flavour { multibyte, astral, eol }
+}
+
+fn boundaries(m: &Model) -> Vec<usize> {
+    (0..=m.u.len()).filter(|&o| m.boundary(o)).collect()
+}
+
+/// One change against the current model state. Returns (change, intended kind label).
+fn gen_change(rng: &mut StdRng, m: &Model, f: Flavour) -> (TextDocumentContentChangeEvent, &'static str) {
+    let lines = m.lines();
+    let nlines = lines.len() as u32;
+    let r = rng.gen_range(0..100);
+    let ins = |rng: &mut StdRng| -> String {
+        match rng.gen_range(0..10) {
+            0..=1 => String::new(),
+            2..=4 => gen_char(rng, f).to_string(),
+            5..=7 => {
+                let n = rng.gen_range(1..=8);
+                (0..n).map(|_| gen_char(rng, f)).collect()
+            }
+            8 => gen_eol(rng, f).to_string(),
+            _ => gen_text(rng, f, 3, 8),
+        }
+    };
+    if r < 10 {
+        let text = gen_text(rng, f, 8, 16);
+        return (TextDocumentContentChangeEvent { range: None, range_length: None, text }, "full");
+    }
+    let bs = boundaries(m);
+    let pick_pair = |rng: &mut StdRng| -> (usize, usize) {
+        let a = bs[rng.gen_range(0..bs.len())];
+        let b = match rng.gen_range(0..10) {
+            0..=2 => a,
+            3..=6 => {
+                // close by
+                let i = bs.iter().position(|&x| x == a).unwrap();
+                bs[(i + rng.gen_range(0..=4)).min(bs.len() - 1)]
+            }
+            _ => bs[rng.gen_range(0..bs.len())],
+        };
+        (a.min(b), a.max(b))
+    };
+    if r < 85 {
+        let (a, b) = match rng.gen_range(0..12) {
+            0 => (m.u.len(), m.u.len()),
+            1 => (0, 0),
+            2 => (0, m.u.len()),
+            _ => pick_pair(rng),
+        };
+        let range = Range::new(m.position(&lines, a), m.position(&lines, b));
+        let range_length = match rng.gen_range(0..4) {
+            0 => Some((b - a) as u32),
+            1 => Some(rng.gen_range(0..1000)),
+            _ => None,
+        };
+        return (TextDocumentContentChangeEvent { range: Some(range), range_length, text: ins(rng) }, "valid");
+    }
+    if r < 92 {
+        // start after end: needs two distinct boundaries
+        if bs.len() >= 2 {
+            let i = rng.gen_range(0..bs.len() - 1);
+            let j = rng.gen_range(i + 1..bs.len());
+            let range = Range::new(m.position(&lines, bs[j]), m.position(&lines, bs[i]));
+            return (TextDocumentContentChangeEvent { range: Some(range), range_length: None, text: ins(rng) }, "invalid-order");
+        }
+    }
+    if r < 97 {
+        // end on a line beyond the last line + 1, non-zero column
+        let eline = nlines + 1 + rng.gen_range(0..3) * rng.gen_range(0..50);
+        let end = Position::new(eline, rng.gen_range(1..=20));
+        let start = match rng.gen_range(0..3) {
+            0 => m.position(&lines, bs[rng.gen_range(0..bs.len())]),
+            1 => Position::new(eline, rng.gen_range(0..=end.character)),
+            _ => Position::new(rng.gen_range(nlines..=eline), 0),
+        };
+        return (TextDocumentContentChangeEvent { range: Some(Range::new(start, end)), range_length: None, text: ins(rng) }, "invalid-line");
+    }
+    // eof-tolerant
+    let eline = nlines + rng.gen_range(0..3);
+    let end = Position::new(eline, 0);
+    let start = if rng.gen_bool(0.5) { m.position(&lines, bs[rng.gen_range(0..bs.len())]) } else { Position::new(rng.gen_range(nlines..=eline), 0) };
+    (TextDocumentContentChangeEvent { range: Some(Range::new(start, end)), range_length: None, text: ins(rng) }, "eof-tolerant")
+}
+
+#[derive(Clone, Debug)]
+struct History {
+    driver: &'static str,
+    initial: String,
+    batches: Vec<Vec<TextDocumentContentChangeEvent>>,
+}
+
+/// Pure function of the rng. Generation tracks the *correct* model, so positions are always valid
+/// for the state the client believes in.
+fn gen_history(rng: &mut StdRng, driver: &'static str) -> History {
+    let f = gen_flavour(rng);
+    let initial = gen_text(rng, f, 12, 20);
+    let mut m = Model::new(&initial);
+    let n = match rng.gen_range(0..10) {
+        0 => rng.gen_range(1..=3),
+        1..=6 => rng.gen_range(3..=12),
+        _ => rng.gen_range(10..=30),
+    };
+    let mut batches = vec![];
+    let mut left = n;
+    while left > 0 {
+        let want = if driver == "direct" || rng.gen_bool(0.6) { 1 } else { rng.gen_range(2..=3usize) }.min(left);
+        let mut batch = vec![];
+        for _ in 0..want {
+            let (ch, kind) = gen_change(rng, &m, f);
+            match classify(&m, &ch) {
+                Class::Full => m = Model::new(&ch.text),
+                Class::Valid(s, e) => m.splice(s, e, &ch.text),
+                c => {
+                    // changes that are not plainly valid travel alone
+                    let _ = kind;
+                    if !batch.is_empty() {
+                        batches.push(std::mem::take(&mut batch));
+                    }
+                    batches.push(vec![ch]);
+                    left -= 1;
+                    if let Class::EofTolerant(..) = c {
+                        // the server may take it as end-of-document or refuse it: the client
+                        // re-establishes an unambiguous state with a full-text change
+                        let text = gen_text(rng, f, 8, 16);
+                        m = Model::new(&text);
+                        batches.push(vec![TextDocumentContentChangeEvent { range: None, range_length: None, text }]);
+                    }
+                    continue;
+                }
+            }
+            batch.push(ch);
+            left -= 1;
+        }
+        if !batch.is_empty() {
+            batches.push(batch);
+        }
+    }
+    History { driver, initial, batches }
+}
+
+fn change_json(c: &TextDocumentContentChangeEvent) -> Value {
+    json!({
+        "range": c.range.map(|r| vec![r.start.line, r.start.character, r.end.line, r.end.character]),
+        "range_length": c.range_length,
+        "text": c.text,
+    })
+}
+
+fn history_json(h: &History) -> Value {
+    json!({
+        "driver": h.driver,
+        "initial": h.initial,
+        "batches": h.batches.iter().map(|b| b.iter().map(change_json).collect::<Vec<_>>()).collect::<Vec<_>>(),
+    })
+}
+
+fn history_from_json(v: &Value) -> Option<History> {
+    let driver = match v["driver"].as_str()? {
+        "direct" => "direct",
+        "documents" => "documents",
+        "server" => "server",
+        _ => return None,
+    };
+    let mut batches = vec![];
+    for b in v["batches"].as_array()? {
+        let mut batch = vec![];
+        for c in b.as_array()? {
+            let range = match &c["range"] {
+                Value::Null => None,
+                r => {
+                    let a: Vec<u32> = serde_json::from_value(r.clone()).ok()?;
+                    if a.len() != 4 {
+                        return None;
+                    }
+                    Some(Range::new(Position::new(a[0], a[1]), Position::new(a[2], a[3])))
+                }
+            };
+            batch.push(TextDocumentContentChangeEvent { range, range_length: c["range_length"].as_u64().map(|x| x as u32), text: c["text"].as_str()?.to_string() });
+        }
+        batches.push(batch);
+    }
+    Some(History { driver, initial: v["initial"].as_str()?.to_string(), batches })
+}
+
+// ------------------------------------------------------------------------------------------
+// Drivers
+
+/// What a driver reports after a batch.
+struct Observed {
+    /// Ok / Err(message) of the call
+    result: Result<(), String>,
+    /// the server's in-memory text
+    memory: Option<String>,
+    /// the file the server writes (documents / server drivers)
+    disk: Option<PathBuf>,
+}
+
+trait Driver {
+    fn name(&self) -> &'static str;
+    /// (re)start with this document content. Err((true, ..)) = the failure is itself a violation of
+    /// C23 (a full-text change was not taken over), Err((false, ..)) = the driver is unusable.
+    fn open(&mut self, text: &str) -> Result<(), (bool, String)>;
+    /// apply one batch; Err((loc,msg)) = panic
+    fn change(&mut self, batch: &[TextDocumentContentChangeEvent]) -> Result<Observed, (String, String)>;
+}
+
+struct Direct {
+    rt: tokio::runtime::Runtime,
+    path: PathBuf,
+    doc: Option<TextDocument>,
+    opens: u64,
+}
+
+impl Driver for Direct {
+    fn name(&self) -> &'static str {
+        "direct"
+    }
+    fn open(&mut self, text: &str) -> Result<(), (bool, String)> {
+        // building from a file costs a trip through tokio's blocking pool: done for every 50th
+        // history, the others reuse the document and start with a full-text change
+        self.opens += 1;
+        if self.opens % 50 != 1 {
+            if let Some(doc) = self.doc.as_mut() {
+                let full = TextDocumentContentChangeEvent { range: None, range_length: None, text: text.to_string() };
+                let r = catch(AssertUnwindSafe(|| doc.apply_change(&full).map_err(|e| e.to_string()))).map_err(|(l, m)| (true, format!("apply_change panicked on a full-text change: {m} at {l}")))?;
+                r.map_err(|e| (true, format!("a full-text change was rejected: {e}")))?;
+                if doc.get_text() != text {
+                    return Err((true, format!("a full-text change to {} left {}", short(text), short(doc.get_text()))));
+                }
+                return Ok(());
+            }
+        }
+        std::fs::write(&self.path, text).map_err(|e| (false, e.to_string()))?;
+        let p = self.path.to_string_lossy().to_string();
+        let d = catch(AssertUnwindSafe(|| self.rt.block_on(TextDocument::build_from_path(&p)))).map_err(|(l, m)| (false, format!("build_from_path panicked: {m} at {l}")))?;
+        self.doc = Some(d.map_err(|e| (false, e.to_string()))?);
+        Ok(())
+    }
+    fn change(&mut self, batch: &[TextDocumentContentChangeEvent]) -> Result<Observed, (String, String)> {
+        let doc = self.doc.as_mut().expect("opened");
+        let r = catch(AssertUnwindSafe(|| {
+            for ch in batch {
+                doc.apply_change(ch).map_err(|e| e.to_string())?;
+            }
+            Ok::<(), String>(())
+        }))?;
+        Ok(Observed { result: r, memory: Some(doc.get_text().to_string()), disk: None })
+    }
+}
+
+struct Docs {
+    rt: tokio::runtime::Runtime,
+    dir: PathBuf,
+    n: u64,
+    docs: Documents,
+    uri: Option<Url>,
+}
+
+impl Driver for Docs {
+    fn name(&self) -> &'static str {
+        "documents"
+    }
+    fn open(&mut self, text: &str) -> Result<(), (bool, String)> {
+        // a fresh store and a fresh file per history
+        self.docs = Documents::new();
+        self.n += 1;
+        let path = self.dir.join(format!("doc{}.sw", self.n % 4));
+        std::fs::write(&path, text).map_err(|e| (false, e.to_string()))?;
+        let uri = Url::from_file_path(&path).map_err(|_| (false, "bad path".to_string()))?;
+        catch(AssertUnwindSafe(|| self.rt.block_on(self.docs.handle_open_file(&uri)))).map_err(|(l, m)| (false, format!("handle_open_file panicked: {m} at {l}")))?;
+        if self.docs.get_text_document(&uri).map(|d| d.get_text() != text).unwrap_or(true) {
+            return Err((false, "handle_open_file did not store the file content".into()));
+        }
+        self.uri = Some(uri);
+        Ok(())
+    }
+    fn change(&mut self, batch: &[TextDocumentContentChangeEvent]) -> Result<Observed, (String, String)> {
+        let uri = self.uri.clone().expect("opened");
+        let r = catch(AssertUnwindSafe(|| self.rt.block_on(self.docs.write_changes_to_file(&uri, batch)).map_err(|e| e.to_string())))?;
+        let memory = self.docs.get_text_document(&uri).ok().map(|d| d.get_text().to_string());
+        Ok(Observed { result: r, memory, disk: Some(PathBuf::from(uri.path())) })
+    }
+}
+
+struct Server {
+    rt: tokio::runtime::Runtime,
+    state: ServerState,
+    ws_uri: Url,
+    temp_uri: Url,
+    version: i32,
+}
+
+impl Server {
+    /// A real (std-less) project, opened through the did_open handler.
+    fn start(dir: &Path) -> Result<Server, String> {
+        let proj = dir.join("ws").join("proj");
+        std::fs::create_dir_all(proj.join("src")).map_err(|e| e.to_string())?;
+        std::fs::write(proj.join("Forc.toml"), "[project]\nauthors = [\"verif\"]\nentry = \"main.sw\"\nlicense = \"Apache-2.0\"\nname = \"proj\"\nimplicit-std = false\n\n[dependencies]\n").map_err(|e| e.to_string())?;
+        let main = proj.join("src").join("main.sw");
+        let text = "library;\n\npub fn f() -> u64 {\n    1\n}\n";
+        std::fs::write(&main, text).map_err(|e| e.to_string())?;
+        let rt = tokio::runtime::Builder::new_current_thread().enable_all().build().map_err(|e| e.to_string())?;
+        let state = catch(AssertUnwindSafe(ServerState::default)).map_err(|(l, m)| format!("ServerState::default panicked: {m} at {l}"))?;
+        let ws_uri = Url::from_file_path(&main).map_err(|_| "bad path".to_string())?;
+        let params = DidOpenTextDocumentParams { text_document: TextDocumentItem { uri: ws_uri.clone(), language_id: "sway".into(), version: 1, text: text.into() } };
+        // did_open waits for the first compilation; a known scheduling defect (C24) can park it
+        // for ever, hence the watchdog (expiry = this driver is unavailable, never a verdict)
+        let opened = catch(AssertUnwindSafe(|| rt.block_on(async { tokio::time::timeout(Duration::from_secs(30), notification::handle_did_open_text_document(&state, params)).await })))
+            .map_err(|(l, m)| format!("did_open panicked: {m} at {l}"))?;
+        match opened {
+            Err(_) => return Err("did_open did not return within 30 s".into()),
+            Ok(Err(e)) => return Err(format!("did_open failed: {e}")),
+            Ok(Ok(())) => {}
+        }
+        let temp_uri = state.uri_from_workspace(&ws_uri).map_err(|e| format!("uri_from_workspace: {e}"))?;
+        Ok(Server { rt, state, ws_uri, temp_uri, version: 1 })
+    }
+    fn stop(&self) {
+        let _ = catch(AssertUnwindSafe(|| {
+            let _ = self.state.shutdown_server();
+        }));
+    }
+}
+
+impl Driver for Server {
+    fn name(&self) -> &'static str {
+        "server"
+    }
+    fn open(&mut self, text: &str) -> Result<(), (bool, String)> {
+        // the document stays open for the life of the shard; a history starts with a full change
+        let ch = TextDocumentContentChangeEvent { range: None, range_length: None, text: text.to_string() };
+        match self.change(&[ch]) {
+            Ok(o) => {
+                o.result.map_err(|e| (true, format!("did_change with a full-text change failed: {e}")))?;
+                if o.memory.as_deref() != Some(text) {
+                    return Err((true, format!("a full-text change to {} left memory {:?}", short(text), o.memory.as_deref().map(short))));
+                }
+                let mut scratch = ShardResult::default();
+                match settle_disk(o.disk.as_deref().unwrap(), text, text, &mut scratch) {
+                    Disk::Equal => Ok(()),
+                    Disk::Wrong(got) => Err((true, format!("a full-text change to {} left the file with {}", short(text), short(&got)))),
+                    Disk::NotObserved(_) => Err((false, "file write not observed within the watchdog".into())),
+                }
+            }
+            Err((l, m)) => Err((true, format!("did_change panicked on a full-text change: {m} at {l}"))),
+        }
+    }
+    fn change(&mut self, batch: &[TextDocumentContentChangeEvent]) -> Result<Observed, (String, String)> {
+        self.version += 1;
+        let params = DidChangeTextDocumentParams { text_document: VersionedTextDocumentIdentifier { uri: self.ws_uri.clone(), version: self.version }, content_changes: batch.to_vec() };
+        let r = catch(AssertUnwindSafe(|| self.rt.block_on(notification::handle_did_change_text_document(&self.state, params)).map_err(|e| e.to_string())))?;
+        let memory = self.state.documents.get_text_document(&self.temp_uri).ok().map(|d| d.get_text().to_string());
+        Ok(Observed { result: r, memory, disk: Some(PathBuf::from(self.temp_uri.path())) })
+    }
+}
+
+// ------------------------------------------------------------------------------------------
+// Oracle
+
+/// The server writes the file through tokio::fs without flushing: `write_all` returns once the
+/// data is handed to a blocking thread, so the file may still be empty / partly written when the
+/// handler returns. What is compared is the content the write settles on: while the file holds a
+/// prefix of the expected text (or still the previous text) the read is repeated. A write that is
+/// not observed within the watchdog is inconclusive; only a content that is neither is wrong.
+enum Disk {
+    Equal,
+    Wrong(String),
+    NotObserved(String),
+}
+
+fn settle_disk(path: &Path, want: &str, prev: &str, res: &mut ShardResult) -> Disk {
+    let start = std::time::Instant::now();
+    let mut retried = false;
+    let mut tries = 0u32;
+    loop {
+        let got = std::fs::read(path).map(|b| String::from_utf8_lossy(&b).into_owned()).unwrap_or_default();
+        if got == want {
+            if retried {
+                res.count("disk_reads_repeated_until_write_completed");
+            }
+            return Disk::Equal;
+        }
+        let transient = want.starts_with(&got) || got == prev;
+        if !transient {
+            return Disk::Wrong(got);
+        }
+        if start.elapsed() > Duration::from_secs(10) {
+            return Disk::NotObserved(got);
+        }
+        retried = true;
+        tries += 1;
+        if tries < 200 {
+            std::thread::yield_now();
+        } else {
+            std::thread::sleep(Duration::from_micros(100));
+        }
+    }
+}
+
+fn short(s: &str) -> String {
+    let t: String = s.chars().take(60).collect();
+    format!("{t:?}")
+}
+
+const BUG: &str = "utf16-column-treated-as-byte-offset";
+
+/// Compares the file the server wrote with `want` (if the driver has a file). false = reported.
+fn disk_ok(o: &Observed, want: &Option<String>, sig: &str, before: &str, _mem: &str, res: &mut ShardResult, fail: &dyn Fn(&mut ShardResult, &str, String, Outcome)) -> bool {
+    let (Some(path), Some(want)) = (&o.disk, want) else { return true };
+    match settle_disk(path, want, before, res) {
+        Disk::Equal => {
+            res.count("disk_comparisons");
+            true
+        }
+        Disk::Wrong(got) => {
+            fail(res, sig, format!("the server's memory is right but the file {} holds {} instead of {}", path.display(), short(&got), short(want)), Outcome::Text("<disk>".into()));
+            false
+        }
+        Disk::NotObserved(got) => {
+            res.inconclusive(format!("the file write was not observed within the watchdog (file holds {}, expected {})", short(&got), short(want)));
+            res.count("disk_write_not_observed");
+            true
+        }
+    }
+}
+
+/// Runs one history. Returns false if the driver could not be used (inconclusive).
+fn run_history(d: &mut dyn Driver, h: &History, res: &mut ShardResult) -> bool {
+    res.evaluations += 1;
+    let replay = history_json(h);
+    if let Err((is_violation, e)) = d.open(&h.initial) {
+        if is_violation {
+            res.violation("full-text-change-not-taken-over", format!("[{} driver] {e}", d.name()), replay);
+        } else {
+            // opening plain file content is not what C23 is about; if it fails the driver is unusable
+            res.inconclusive(format!("driver {} could not open the document: {e}", d.name()));
+        }
+        return false;
+    }
+    res.count(&format!("histories_{}", d.name()));
+    let mut m = Model::new(&h.initial);
+    let mut applied_incremental = 0u32;
+    let (mut any_non_ascii, mut any_astral, mut any_crlf) = (false, false, false);
+    let note_text = |t: &str, na: &mut bool, astral: &mut bool, crlf: &mut bool| {
+        if !t.is_ascii() {
+            *na = true;
+        }
+        if t.chars().any(|c| c.len_utf16() == 2) {
+            *astral = true;
+        }
+        if t.contains("\r\n") {
+            *crlf = true;
+        }
+    };
+    note_text(&h.initial, &mut any_non_ascii, &mut any_astral, &mut any_crlf);
+    let mut diverged = false;
+
+    for (bi, batch) in h.batches.iter().enumerate() {
+        let before = m.text();
+        // expected result of the batch under the correct model
+        let mut expect = m.clone();
+        let mut classes = vec![];
+        for ch in batch {
+            let c = classify(&expect, ch);
+            match c {
+                Class::Full => expect = Model::new(&ch.text),
+                Class::Valid(s, e) => expect.splice(s, e, &ch.text),
+                _ => {}
+            }
+            classes.push(c);
+            note_text(&ch.text, &mut any_non_ascii, &mut any_astral, &mut any_crlf);
+        }
+        let single = if batch.len() == 1 { Some(classes[0]) } else { None };
+        if classes.iter().any(|c| *c == Class::Unspecified) || (batch.len() > 1 && classes.iter().any(|c| !matches!(c, Class::Full | Class::Valid(..)))) {
+            // not generated; only reachable through a hand-written replay file
+            res.count("batches_outside_the_statement_skipped");
+            continue;
+        }
+        res.count("batches");
+        if batch.len() > 1 {
+            res.count("batches_multi_change");
+        }
+        let t0 = std::time::Instant::now();
+        let obs = d.change(batch);
+        res.add(&format!("time_us_in_{}", d.name()), t0.elapsed().as_micros() as u64);
+        let mimic = mimic_batch(&before, batch);
+        let step = json!({"batch_index": bi, "text_before": before});
+        let correct_text = expect.text();
+        let fail = |res: &mut ShardResult, generic_sig: &str, desc: String, observed: Outcome| {
+            // is this exactly the known defect? the bug-mimicking model must reproduce the
+            // observation while the correct model does not, and non-ASCII text must be involved
+            let acceptable: Vec<Outcome> = match single {
+                Some(Class::InvalidOrder) | Some(Class::InvalidLine) => vec![Outcome::Rejected(before.clone())],
+                Some(Class::EofTolerant(s, e)) => {
+                    let mut alt = Model::new(&before);
+                    alt.splice(s, e, &batch[0].text);
+                    vec![Outcome::Text(alt.text()), Outcome::Rejected(before.clone())]
+                }
+                _ => vec![Outcome::Text(correct_text.clone())],
+            };
+            let non_ascii_involved = !before.is_ascii() || batch.iter().any(|c| !c.text.is_ascii());
+            let explained = observed == mimic && !acceptable.contains(&mimic) && non_ascii_involved;
+            let sig = if explained {
+                match &observed {
+                    Outcome::Text(_) => format!("{BUG}:wrong-text"),
+                    Outcome::Rejected(_) => format!("{BUG}:valid-range-rejected"),
+                    Outcome::Panic => format!("{BUG}:panic@sway-lsp/src/core/document.rs"),
+                }
+            } else {
+                generic_sig.to_string()
+            };
+            if explained {
+                res.count("failures_explained_by_known_defect");
+                let key = format!("recorded_{sig}");
+                if res.counters.get(&key).copied().unwrap_or(0) >= 3 {
+                    return;
+                }
+                res.count(&key);
+            }
+            let mut r = replay.clone();
+            r["failed_at"] = step.clone();
+            res.violation(sig, format!("[{} driver, batch {bi}] {desc}", h.driver), r);
+        };
+        let mut ok = true;
+        match obs {
+            Err((loc, msg)) => {
+                ok = false;
+                // the char-boundary assertion of String::replace_range, reached from document.rs
+                let boundary_panic = (msg.contains("character boundary") || msg.contains("char boundary") || msg.contains("is_char_boundary")) && loc.contains("sway-lsp/src/core/document.rs");
+                let observed = if boundary_panic { Outcome::Panic } else { Outcome::Text(format!("<other panic {msg}>")) };
+                fail(res, &panic_signature(&loc, &msg), format!("server panicked: {msg} at {loc}; text before {}", short(&before)), observed);
+            }
+            Ok(o) => {
+                let mem = o.memory.clone().unwrap_or_else(|| "<document missing>".into());
+                // what the file must settle on once the in-memory comparison has passed
+                let mut disk_want: Option<String> = None;
+                let mut disk_sig = "file-on-disk-differs-from-client".to_string();
+                match single {
+                    Some(Class::InvalidOrder) | Some(Class::InvalidLine) => {
+                        let kind = if single == Some(Class::InvalidOrder) { "start-after-end" } else { "line-beyond-document" };
+                        if o.result.is_ok() {
+                            ok = false;
+                            fail(res, &format!("invalid-range-accepted:{kind}"), format!("invalid range ({kind}) {:?} was accepted; text before {}", batch[0].range, short(&before)), Outcome::Text(mem.clone()));
+                        } else if mem != before {
+                            ok = false;
+                            fail(res, &format!("invalid-range-altered-document:{kind}"), format!("invalid range ({kind}) was rejected but the text changed from {} to {}", short(&before), short(&mem)), Outcome::Rejected(mem.clone()));
+                        } else {
+                            res.count("invalid_ranges_rejected");
+                            res.count(&format!("invalid_ranges_rejected_{kind}"));
+                            res.count("text_comparisons");
+                            disk_want = Some(before.clone());
+                            disk_sig = format!("invalid-range-altered-file:{kind}");
+                        }
+                    }
+                    Some(Class::EofTolerant(s, e)) => {
+                        res.count("text_comparisons");
+                        if o.result.is_ok() {
+                            let mut alt = m.clone();
+                            alt.splice(s, e, &batch[0].text);
+                            if mem == alt.text() {
+                                res.count("eof_tolerant_accepted_as_end_of_document");
+                                disk_want = Some(mem.clone());
+                                expect = alt;
+                            } else {
+                                ok = false;
+                                fail(res, "position-beyond-last-line-neither-rejected-nor-end-of-document", format!("range {:?} with positions beyond the last line produced {} from {}", batch[0].range, short(&mem), short(&before)), Outcome::Text(mem.clone()));
+                            }
+                        } else if mem == before {
+                            res.count("eof_tolerant_rejected");
+                            disk_want = Some(before.clone());
+                        } else {
+                            ok = false;
+                            fail(res, "rejected-change-altered-document", format!("range {:?} was rejected but the text changed", batch[0].range), Outcome::Rejected(mem.clone()));
+                        }
+                    }
+                    _ => {
+                        // all changes valid: must be applied
+                        let want = expect.text();
+                        match &o.result {
+                            Err(e) => {
+                                ok = false;
+                                fail(res, "valid-change-rejected", format!("valid change(s) {:?} rejected ({e}); text before {}", batch.iter().map(|c| c.range).collect::<Vec<_>>(), short(&before)), Outcome::Rejected(mem.clone()));
+                            }
+                            Ok(()) => {
+                                res.count("text_comparisons");
+                                if mem != want {
+                                    ok = false;
+                                    fail(res, "server-text-differs-from-client", format!("after {:?} on {} the server holds {} but the client holds {}", batch.iter().map(|c| (c.range, short(&c.text))).collect::<Vec<_>>(), short(&before), short(&mem), short(&want)), Outcome::Text(mem.clone()));
+                                } else {
+                                    disk_want = Some(want.clone());
+                                }
+                            }
+                        }
+                        if ok && !disk_ok(&o, &disk_want, &disk_sig, &before, &mem, res, &fail) {
+                            ok = false;
+                        }
+                        disk_want = None;
+                        if ok {
+                            for (ch, c) in batch.iter().zip(&classes) {
+                                res.count("changes_applied");
+                                match c {
+                                    Class::Full => res.count("changes_full"),
+                                    Class::Valid(s, e) => {
+                                        res.count("changes_incremental");
+                                        applied_incremental += 1;
+                                        if s == e {
+                                            res.count("changes_pure_insertion");
+                                        } else if ch.text.is_empty() {
+                                            res.count("changes_pure_deletion");
+                                        }
+                                        if ch.text.contains('\n') || ch.range.map(|r| r.start.line != r.end.line).unwrap_or(false) {
+                                            res.count("changes_multi_line");
+                                        }
+                                        if !before.is_ascii() {
+                                            res.count("changes_incremental_on_non_ascii_text");
+                                        }
+                                    }
+                                    _ => {}
+                                }
+                            }
+                        }
+                    }
+                }
+                if ok && disk_want.is_some() && !disk_ok(&o, &disk_want, &disk_sig, &before, &mem, res, &fail) {
+                    ok = false;
+                }
+                if !ok {
+                    // let a write that is still in flight finish before the resynchronisation writes again
+                    if let Some(p) = &o.disk {
+                        let mut scratch = ShardResult::default();
+                        let _ = settle_disk(p, &mem, &before, &mut scratch);
+                    }
+                }
+            }
+        }
+        // the client's view after this batch
+        m = expect;
+        res.max("max_document_utf16_units", m.u.len() as u64);
+        if !ok {
+            diverged = true;
+            res.count("divergences");
+            // resynchronise with a full-text change so that the rest of the history is still checked
+            let t = m.text();
+            let full = TextDocumentContentChangeEvent { range: None, range_length: None, text: t.clone() };
+            match d.change(&[full]) {
+                Ok(o) if o.result.is_ok() && o.memory.as_deref() == Some(t.as_str()) => {
+                    res.count("resyncs");
+                    if let Some(p) = &o.disk {
+                        let mut scratch = ShardResult::default();
+                        let _ = settle_disk(p, &t, &t, &mut scratch);
+                    }
+                }
+                other => {
+                    let why = match other {
+                        Ok(o) => format!("result {:?}", o.result),
+                        Err((l, mm)) => format!("panic {mm} at {l}"),
+                    };
+                    let mut r = replay.clone();
+                    r["failed_at"] = step.clone();
+                    res.violation("full-text-change-not-taken-over", format!("[{} driver] a full-text change after a divergence did not bring the server back to the client's text: {why}", h.driver), r);
+                    break;
+                }
+            }
+        }
+    }
+    if any_non_ascii {
+        res.count("histories_non_ascii");
+    } else {
+        res.count("histories_ascii_only");
+    }
+    if any_astral {
+        res.count("histories_astral");
+    }
+    if any_crlf {
+        res.count("histories_crlf");
+    }
+    if diverged {
+        res.count("histories_with_divergence");
+    }
+    if applied_incremental >= 3 {
+        res.note_nontrivial(hash64(replay.to_string().as_bytes()));
+    }
+    if !diverged && applied_incremental >= 3 && h.batches.len() <= 5 {
+        res.sample(replay);
+    }
+    true
+}
+
+// ------------------------------------------------------------------------------------------
+// Shard
+
+struct Drivers {
+    direct: Direct,
+    docs: Docs,
+    server: Option<Server>,
+}
+
+fn new_rt() -> tokio::runtime::Runtime {
+    tokio::runtime::Builder::new_current_thread().enable_all().build().expect("tokio runtime")
+}
+
+fn setup(dir: &Path, res: &mut ShardResult) -> Drivers {
+    // everything sway-lsp creates on its own (workspace clone, lock files) stays under the shard dir
+    let home = dir.join("home");
+    let tmp = dir.join("tmp");
+    std::fs::create_dir_all(&home).ok();
+    std::fs::create_dir_all(&tmp).ok();
+    std::env::set_var("HOME", &home);
+    std::env::set_var("TMPDIR", &tmp);
+    let ddir = dir.join("docs");
+    std::fs::create_dir_all(&ddir).ok();
+    let server = match Server::start(dir) {
+        Ok(s) => Some(s),
+        Err(e) => {
+            res.inconclusive(format!("server driver unavailable: {e}"));
+            res.count("server_driver_unavailable");
+            None
+        }
+    };
+    Drivers { direct: Direct { rt: new_rt(), path: ddir.join("direct.sw"), doc: None, opens: 0 }, docs: Docs { rt: new_rt(), dir: ddir, n: 0, docs: Documents::new(), uri: None }, server }
+}
+
+/// Index space: the direct driver costs microseconds per history, the two others milliseconds
+/// (file writes, compilation requests). A shard spends the first 40% of its time on direct
+/// histories (indices 0, 1, 2, ...) and the rest on the documents / server drivers (indices
+/// 2^40 + k, three documents histories for one server history). A case is still a pure function
+/// of (seed, shard, index).
+const SLOW_BASE: u64 = 1 << 40;
+
+fn driver_for(i: u64) -> &'static str {
+    if i < SLOW_BASE {
+        "direct"
+    } else if (i - SLOW_BASE) % 4 == 3 {
+        "server"
+    } else {
+        "documents"
+    }
+}
+
+fn shard(ctx: &ShardCtx) -> ShardResult {
+    let mut res = ShardResult::default();
+    let dir = ctx.work();
+    let mut ds = setup(&dir, &mut res);
+    let direct_until = ctx.budget.mul_f64(0.4);
+    let (mut fast, mut slow) = (0u64, SLOW_BASE);
+    while ctx.time_left() {
+        let i = if ctx.start.elapsed() < direct_until {
+            fast += 1;
+            fast - 1
+        } else {
+            slow += 1;
+            slow - 1
+        };
+        let mut rng = ctx.rng(i);
+        let mut driver = driver_for(i);
+        if driver == "server" && ds.server.is_none() {
+            driver = "documents";
+        }
+        let h = gen_history(&mut rng, driver);
+        let d: &mut dyn Driver = match driver {
+            "direct" => &mut ds.direct,
+            "documents" => &mut ds.docs,
+            _ => ds.server.as_mut().unwrap(),
+        };
+        if !run_history(d, &h, &mut res) && driver == "server" {
+            if let Some(s) = ds.server.take() {
+                s.stop();
+            }
+        }
+    }
+    if let Some(s) = ds.server.take() {
+        s.stop();
+    }
+    res
+}
+
+fn replay(case: &Value) -> ShardResult {
+    let mut res = ShardResult::default();
+    let Some(h) = history_from_json(case) else {
+        res.harness_fault = Some("cannot read the recorded history".into());
+        return res;
+    };
+    let dir = work_dir("C23").join("replay");
+    clean_dir(&dir);
+    let mut ds = setup(&dir, &mut res);
+    let d: &mut dyn Driver = match h.driver {
+        "direct" => &mut ds.direct,
+        "documents" => &mut ds.docs,
+        _ => match ds.server.as_mut() {
+            Some(s) => s,
+            None => {
+                res.harness_fault = Some("server driver unavailable for replay".into());
+                return res;
+            }
+        },
+    };
+    run_history(d, &h, &mut res);
+    if let Some(s) = ds.server.take() {
+        s.stop();
+    }
+    res
+}
